@@ -59,11 +59,19 @@ impl Src for Concrete {
 pub mod bounded;
 pub mod interval;
 pub mod angles;
+pub mod tolerance;
+pub mod deviations;
+pub mod domain;
+pub mod angle_interval;
+pub mod meshbox;
+pub mod lines;
 
 /// Native replay entry (cfg(engeom_verif)): returns Err(list of failed checks) when the violation reproduces.
 pub fn replay(name: &str, vals: Vec<Vec<u8>>) -> Result<String, String> {
     let mut c = Concrete::new(vals);
-    let known = interval::dispatch(name, &mut c) || angles::dispatch(name, &mut c);
+    let known = interval::dispatch(name, &mut c) || angles::dispatch(name, &mut c)
+        || tolerance::dispatch(name, &mut c) || deviations::dispatch(name, &mut c) || domain::dispatch(name, &mut c)
+        || angle_interval::dispatch(name, &mut c) || meshbox::dispatch(name, &mut c) || lines::dispatch(name, &mut c);
     if !known {
         return Ok(format!("unknown harness {}", name));
     }
